@@ -39,6 +39,24 @@ CHECKS = {
         "united with the published construction.",
         design="4/C05",
     ),
+    "C07": dict(
+        text="Every conjunction of up to two counterfactual event items (all consistent subscript assignments incl. reflexive ones, "
+        "values - and +) on every graph of the bound is passed to id_star; the result is evaluated on two functional witness SCMs by "
+        "enumerating every exogenous setting, for every base value assignment, and compared with the probability of the "
+        "conjunction; Zero() is accepted only for probability-zero events; only the 'unidentifiable' refusal may be raised. "
+        "Three defect mechanisms of ID* that the repository's own tests pin are listed in known_findings.json with an index of "
+        "their failing inputs; any other failing input is a violation.",
+        note="Trusted: mc/fscm.py (functional witness, noise enumeration), evaluator, reading of values stated in DESIGN 2.4.",
+        design="4/C07",
+    ),
+    "C18": dict(
+        text="Same event space: make_counterfactual_graph's relabelled event must have the same probability as the original on the "
+        "functional witness for every base assignment, 'inconsistent' only for probability-zero events, and the returned graph "
+        "must be a DAG equal to the ancestors of the relabelled event's variables.",
+        note="Trusted: mc/fscm.py. Exceptions on events containing a self-intervened variable are counted, not judged (the property "
+        "promises no result there).",
+        design="4/C18",
+    ),
     "C10": dict(
         text="Breadth-first exploration of DSL operation sequences from a 24-atom alphabet (thorough: also three operations deep "
         "from a 12-atom alphabet): for every well-scoped expression reached and every ordering, the value function of the "
